@@ -5,7 +5,7 @@ hist = json.load(open(os.path.join(V, "seeded", "HISTORY.json")))
 rows = []
 for mp in sorted(glob.glob(os.path.join(V, "seeded", "C*", "meta.json"))):
     m = json.load(open(mp))
-    pid = m["property"]
+    pid = os.path.basename(os.path.dirname(mp))
     valid = bool(m.get("demo_passes_on_clean") and m.get("demo_fails_on_patched") and m.get("existing_tests_pass"))
     ck = m.get("checks", {})
     det = "; ".join("%s: exit %s, %s VIOLATION lines" % (k, v["exit"], v["violation_lines"]) for k, v in ck.items())
